@@ -34,6 +34,11 @@ theorem telescopeIsIdle_eq (s : Sys) : Gen.telescopeIsIdle s = s.telIsIdle := by
   cases h : s.obs.all (fun o => o.status == RunStatus.finished) <;>
     simp [Id.run, idPure, iteBool, beq_eq_decide]
 
+theorem bufferIsEmpty_eq (b : Buffer) : Gen.bufferIsEmpty b = b.isEmpty := by
+  unfold Gen.bufferIsEmpty Buffer.isEmpty
+  by_cases h1 : b.hot.total = b.hot.cur <;> by_cases h2 : b.cold.total = b.cold.cur <;>
+    simp [Id.run, idPure, h1, h2]
+
 theorem simulationIsFinished_eq (s : Sys) : Gen.simulationIsFinished s = s.isFinished := by
   simp [Gen.simulationIsFinished, Sys.isFinished, Id.run, idPure, iteBool]
   cases s.queue <;> simp
